@@ -35,6 +35,7 @@ def cases(tier):
     for pname, cand in (('pf', 'float'), ('pf', 'int'), ('pi', 'int'), ('pbig', 'bigint'), ('pe', 'smallint'), ('pb', 'bool'), ('ps', 'struct'), ('pa', 'array'),
                         ('target', 'float'), ('pstr', 'str'), ('psc', 'scaled'), ('pbl', 'blob'), ('ptu', 'tuple')):
         out.append({'fn': 'run_end_to_end', 'id': f'end-to-end/{pname}/{cand}', 'params': {'pname': pname, 'cand': cand}})
+    out.append({'fn': 'run_end_to_end', 'id': 'end-to-end/psn/scaledneg', 'params': {'pname': 'psn', 'cand': 'scaledneg', 'own': True}})
     out.append({'fn': 'run_command', 'id': 'end-to-end/command', 'params': {}})
     out.append({'fn': 'run_from_string', 'id': 'from-string', 'params': {}})
     for pname, cand in (('pf', 'float'), ('pi', 'int'), ('pe', 'smallint'), ('ps', 'struct'), ('psc', 'scaled'), ('ptu', 'tuple')):
@@ -82,6 +83,22 @@ def rx(env, cl, triple, K):
 def node_and_description(env):
     from C04_requests import build_node
     srv, log, spec = build_node(env, symbolic=())
+    desc = srv.dispatcher.handle_request(C.Conn(), ('describe', '.', None))[2]
+    return srv, log, desc
+
+
+def own_node(env):
+    """a node with a scaled parameter whose range includes negative values"""
+    from frappy.core import Module, Parameter, ScaledInteger
+    log = []
+
+    class Drv(Module):
+        psn = Parameter('scaled, negative values allowed', ScaledInteger(0.01, -10, 10), readonly=False, default=0)
+
+        def write_psn(self, value):
+            log.append(('psn', value))
+            return None
+    srv = C.make_node({'m': {'cls': Drv, 'description': 'd'}})
     desc = srv.dispatcher.handle_request(C.Conn(), ('describe', '.', None))[2]
     return srv, log, desc
 
@@ -226,7 +243,7 @@ def run_messages(env, p):
 def run_end_to_end(env, p):
     """a value written through the client reaches the driver equal to what the caller passed and comes back
     into the cache equal to what the driver returned"""
-    srv, log, desc = node_and_description(env)
+    srv, log, desc = own_node(env) if p.get('own') else node_and_description(env)
     clock = C.VirtualClock(2000.0)
     cl = make_client(env, desc, clock)
     K = f"C12/end-to-end/{p['pname']}"
@@ -246,6 +263,8 @@ def run_end_to_end(env, p):
         v = [1, 2, 5][env.choice('v', 3)]
     elif cand == 'bool':
         v = env.bool('v')
+    elif cand == 'scaledneg':
+        v = env.int('v', -100, 100) * 0.01
     elif cand == 'scaled':
         v = env.int('v', 0, 100) * 0.1
     elif cand == 'blob':
